@@ -115,7 +115,7 @@ Inductive phase :=
 (* ---- writer call c ---- *)
 | WWant (c : call) (retried : bool)                (* next: snapshot_lock.read() *)
 | WSnapR (c : call) (retried : bool)               (* next: write_gate.lock(); pre-flight *)
-| WFull (c : call) (retried : bool)                (* index full; locks dropped; next: compact_tombstones / Err *)
+| WFull (c : call) (retried : bool) (tomb : N)     (* index full; locks dropped; next: compact_tombstones / Err *)
 | WPre (c : call) (ops : list op)                  (* next: next_wal_seq.fetch_add *)
 | WAlloc (c : call) (base : N) (es : list entry)   (* next: wal.write(); append *)
 | WAppended (c : call) (es : list entry)           (* next: rotate_wal_if_needed: size check (+ create file) *)
@@ -333,7 +333,7 @@ Definition tstep (c : cfg) (st : state) (t : nat) (p : phase) : option (state * 
       | None =>
           if is_ins cl && (c_cap c <=? slots) then
             (* index.is_full(): count tombstones, drop everything *)
-            Some (st, WFull cl r,
+            Some (st, WFull cl r (slots - size sto),
                   [Acq LGate MX; Acq LIdx MR; Acq LStore MR; Rel LStore; Rel LIdx; Rel LGate; Rel LSnap])
           else
             let pre := if is_ins cl then [Acq LIdx MR; Acq LStore MR; Rel LStore; Rel LIdx]
@@ -344,20 +344,22 @@ Definition tstep (c : cfg) (st : state) (t : nat) (p : phase) : option (state * 
                            WPre cl ops, [Acq LGate MX] ++ pre)
             end
       end
-  | WFull cl r =>
-      let tomb := slots - size sto in
-      if negb r && (0 <? (slots - size sto)) then
-        (* compact_tombstones: snapshot_lock.write() ... *)
+  | WFull cl r tomb =>
+      if negb r && (0 <? tomb) then
+        (* compact_tombstones: snapshot_lock.write(), index.write(), doc_store.write() *)
         if no_readers st then
-          Some (mkSt nx sto (size sto) cnt act bytes files snaps man fid gate mlock thr,
-                WWant cl true,
-                [Acq LSnap MW] ++ rd LIdx ++ [Acq LIdx MW; Acq LStore MW; Acq LMeta MW;
-                 Rel LStore; Rel LIdx; Rel LMeta; Rel LSnap])
+          if 0 <? slots - size sto then
+            Some (mkSt nx sto (size sto) cnt act bytes files snaps man fid gate mlock thr,
+                  WWant cl true,
+                  [Acq LSnap MW] ++ rd LIdx ++ [Acq LIdx MW; Acq LStore MW; Acq LMeta MW;
+                   Rel LStore; Rel LIdx; Rel LMeta; Rel LSnap])
+          else
+            (* somebody else compacted meanwhile: Ok(0), then bail "index full" *)
+            Some (st, Idle,
+                  [Acq LSnap MW] ++ rd LIdx ++ [Acq LIdx MW; Acq LStore MW; Rel LStore; Rel LIdx; Rel LSnap]
+                  ++ rd LIdx)
         else None
-      else
-        if r && (0 <? tomb) && false then None else
-        if negb r && negb (0 <? tomb) then Some (st, Idle, rd LIdx)        (* bail: index full *)
-        else Some (st, Idle, rd LIdx)
+      else Some (st, Idle, rd LIdx)                                   (* bail: index full *)
   | WPre cl ops =>
       Some (mkSt (nx + N.of_nat (length ops)) sto slots cnt act bytes files snaps man fid gate mlock thr,
             WAlloc cl nx (mk_entries nx ops), [])
